@@ -101,7 +101,9 @@ class Scheduler:
             code = frame.f_code
             hit = self._code_cache.get(code)
             if hit is None:
-                hit = bool(self.is_point(code))
+                hit = self.is_point(code)       # False / True (every line) / a set of line numbers
+                if not isinstance(hit, (set, frozenset)):
+                    hit = bool(hit)
                 self._code_cache[code] = hit
             if hit:
                 return self._ltrace
@@ -109,6 +111,9 @@ class Scheduler:
 
     def _ltrace(self, frame, event, arg):
         if event == "line":
+            lines = self._code_cache.get(frame.f_code)
+            if isinstance(lines, (set, frozenset)) and frame.f_lineno not in lines:
+                return self._ltrace
             ct = _tls.ct
             ct.points_seen += 1
             self._where = (ct.id, frame.f_code.co_name, frame.f_lineno)
@@ -197,6 +202,55 @@ class ControlledThread:
 
     def is_alive(self):
         return self._ct is not None and self._ct.state != "DONE"
+
+
+class CLock:
+    """A mutex owned by the scheduler: acquire is a scheduling point, a thread that finds it taken is blocked (not enabled)
+    until it is released; 'no enabled thread' then shows as a deadlock instead of hanging the harness."""
+
+    def __init__(self):
+        self.owner = None
+
+    def acquire(self, blocking=True, timeout=-1):
+        s = _current
+        me = getattr(_tls, "ct", None)
+        if s is None or me is None:
+            if self.owner is not None:
+                if not blocking:
+                    return False
+                raise HarnessError("CLock taken outside a controlled execution")
+            self.owner = "external"
+            return True
+        s.yield_point(me)
+        while self.owner is not None:
+            if not blocking:
+                return False
+            me.state = "BLOCKED"
+            me.waiting_on = self
+            s.main_sem.release()
+            s._acquire(me.baton)
+        self.owner = me
+        return True
+
+    def release(self):
+        self.owner = None
+        s = _current
+        if s is not None:
+            for o in s.threads:
+                if o.state == "BLOCKED" and o.waiting_on is self:
+                    o.state = "READY"
+                    o.waiting_on = None
+
+    def locked(self):
+        return self.owner is not None
+
+    def __enter__(self):
+        self.acquire()
+        return self
+
+    def __exit__(self, *a):
+        self.release()
+        return False
 
 
 # ----------------------------------------------------------------------------------------------
